@@ -32,18 +32,34 @@ Proof. exact zrange_nth. Qed.
 Print Assumptions C04_range_nth.
 
 (* n repetitions of a leaf last exactly n x the leaf, for every n (an identity of Q: nothing accumulates) *)
-Theorem C04_no_accumulation : forall n d, total (wrap_node n [Leaf 1 d]) == inject_Z n * d.
+Theorem C04_no_accumulation : forall n cs d, total (wrap_node n [Leaf 1 cs d]) == inject_Z n * d.
 Proof. exact rep_leaf_exact. Qed.
 Print Assumptions C04_no_accumulation.
 
-(* program side, all template kinds, unbounded: whenever the template denotes a duration d and the binary and the
-   decimal reading of the comparisons build the same program (g_view), Loop.duration, the duration of the single
-   waveform and the sum of the pieces are all d; an empty program means d = 0 *)
-Theorem C04_program_views_agree : forall p e d, g_view p e = true -> den p (qenv_of e) = Some d ->
+(* channel mappings (renaming, dropping; MappingPT, nested, create_program's argument) never enter a duration: the
+   specification and the symbolic duration of a template are those of the template with the mappings threaded to its
+   atoms *)
+Theorem C04_channel_mapping_irrelevant_for_durations :
+  forall p f, (forall e, den (resolve f p) e = den p e) /\ (forall e, sym (resolve f p) e = sym p e).
+Proof. intros p f. split; intros e; [apply den_resolve | apply sym_resolve]. Qed.
+Print Assumptions C04_channel_mapping_irrelevant_for_durations.
+
+(* where to_waveform does not raise (all leaves define the same channels) its duration is wf_duration *)
+Theorem C04_to_waveform_duration : forall l q, to_wf l = Some q -> wf_duration l = Some q.
+Proof. exact to_wf_some. Qed.
+Print Assumptions C04_to_waveform_duration.
+
+(* program side, all template kinds, unbounded: whenever the template denotes a duration d, the binary and the
+   decimal reading of the comparisons build the same program (g_view), no atom loses ALL its channels to a channel
+   mapping and the leaves define the same channels, Loop.duration, the duration of the single waveform (to_waveform does
+   not raise) and the sum of the pieces are all d; an empty program means d = 0.  `create_program` threads the channel
+   mappings to the atoms; a table is padded to the latest entry of ALL its channels, also of the dropped ones *)
+Theorem C04_program_views_agree : forall p e d,
+  g_view p e = true -> guard_finding FDropped p e = true -> g_uniform p e = true -> den p (qenv_of e) = Some d ->
   forall o, create_program real p e = Ok o ->
   match o with
   | None => d == 0
-  | Some prog => loop_duration prog == d /\ (exists q, wf_duration prog = Some q /\ q == d) /\ sum_pieces 1 prog == d
+  | Some prog => loop_duration prog == d /\ (exists q, to_wf prog = Some q /\ q == d) /\ sum_pieces 1 prog == d
   end.
 Proof. exact program_views_agree. Qed.
 Print Assumptions C04_program_views_agree.
@@ -62,25 +78,28 @@ Print Assumptions C04_denoted_duration_nonneg.
 
 (* all four views, all kinds, float parameters read as their shortest decimal, wherever a duration is denoted *)
 Theorem C04_agree_denoted : forall p e d v o,
-  g_view p e = true -> den p (qenv_of e) = Some d -> create_program real p e = Ok o -> sym p (decimalize e) = Ok v ->
+  g_view p e = true -> guard_finding FDropped p e = true -> g_uniform p e = true -> den p (qenv_of e) = Some d ->
+  create_program real p e = Ok o -> sym p (decimalize e) = Ok v ->
   time_of v == d /\
   match o with
   | None => d == 0
-  | Some prog => loop_duration prog == d /\ (exists q, wf_duration prog = Some q /\ q == d) /\ sum_pieces 1 prog == d
+  | Some prog => loop_duration prog == d /\ (exists q, to_wf prog = Some q /\ q == d) /\ sum_pieces 1 prog == d
   end.
 Proof. exact agree_den. Qed.
 Print Assumptions C04_agree_denoted.
 
 (* THE property, tight guard: whenever the binary and the decimal reading of the code's comparisons build the same
-   program (g_view: the quantifier's "ints or short decimals") and none of the four modelled finding classes is met
-   (cp ideal accepts), the code accepts and all four views equal the symbolic duration; no `den` involved *)
+   program (g_view: the quantifier's "ints or short decimals"), none of the five modelled finding classes is met
+   (cp ideal accepts) and the leaves define the same channels (g_uniform), the code accepts and all four views equal
+   the symbolic duration (to_waveform does not raise); no `den` involved.  Parameter mappings are simultaneous
+   substitutions, channel mappings are threaded to the atoms (see C04_example_mappings) *)
 Theorem C04_agree : forall p e v,
   guard_C04 p e = true -> sym p (decimalize e) = Ok v ->
   exists o, create_program real p e = Ok o /\
   match o with
   | None => time_of v == 0
   | Some prog => loop_duration prog == time_of v
-                 /\ (exists q, wf_duration prog = Some q /\ q == time_of v)
+                 /\ (exists q, to_wf prog = Some q /\ q == time_of v)
                  /\ sum_pieces 1 prog == time_of v
   end.
 Proof. exact agree_tight. Qed.
@@ -97,32 +116,59 @@ Proof. exact guard_exact. Qed.
 Print Assumptions C04_guard_exact.
 
 (* without the guard the faithful model of the unchanged code violates the property: one witness per class; exactly
-   the class's own guard (g_view, negative count, negative duration, near-integer, unequal parallel parts) is false *)
-Theorem C04_agree_refuted_negative_count : disagrees w_negcount /\ guards_of w_negcount = [true; false; true; true; true; false].
+   the class's own guard is false; guards_of = [g_view; negative count; negative duration; near-integer; unequal
+   parallel parts; all channels dropped; g_uniform; guard_C04] *)
+Theorem C04_agree_refuted_negative_count : disagrees w_negcount /\ guards_of w_negcount = [true; false; true; true; true; true; true; false].
 Proof. exact refuted_negcount. Qed.
 Print Assumptions C04_agree_refuted_negative_count.
-Theorem C04_agree_refuted_negative_duration : disagrees w_negdur /\ guards_of w_negdur = [true; true; false; true; true; false].
+Theorem C04_agree_refuted_negative_duration : disagrees w_negdur /\ guards_of w_negdur = [true; true; false; true; true; true; true; false].
 Proof. exact refuted_negdur. Qed.
 Print Assumptions C04_agree_refuted_negative_duration.
-Theorem C04_agree_refuted_near_integer : disagrees w_nearint /\ guards_of w_nearint = [true; true; true; false; true; false].
+Theorem C04_agree_refuted_near_integer : disagrees w_nearint /\ guards_of w_nearint = [true; true; true; false; true; true; true; false].
 Proof. exact refuted_nearint. Qed.
 Print Assumptions C04_agree_refuted_near_integer.
-Theorem C04_agree_refuted_parallel_unequal : disagrees w_parallel /\ guards_of w_parallel = [true; true; true; true; false; false].
+Theorem C04_agree_refuted_parallel_unequal : disagrees w_parallel /\ guards_of w_parallel = [true; true; true; true; false; true; true; false].
 Proof. exact refuted_parallel. Qed.
 Print Assumptions C04_agree_refuted_parallel_unequal.
-Theorem C04_agree_refuted_binary_reading : disagrees w_view /\ guards_of w_view = [false; true; true; true; true; false].
+Theorem C04_agree_refuted_binary_reading : disagrees w_view /\ guards_of w_view = [false; true; true; true; true; true; true; false].
 Proof. exact refuted_view. Qed.
 Print Assumptions C04_agree_refuted_binary_reading.
+
+(* an atom none of whose channels is played (MappingPT(ConstantPT(3, {c}), channel_mapping={c: None})): the template
+   lasts 3, nothing is played *)
+Theorem C04_agree_refuted_all_channels_dropped : disagrees w_dropped /\ guards_of w_dropped = [true; true; true; true; true; false; true; false].
+Proof. exact refuted_dropped. Qed.
+Print Assumptions C04_agree_refuted_all_channels_dropped.
+(* finding C04-zero-length-function-leaf: template, Loop.duration and pieces agree (9), to_waveform raises because the
+   zero-length function leaf defines fewer channels; only g_uniform is false *)
+Theorem C04_agree_refuted_zero_length_function_leaf :
+  (exists kids v, cp real (rs (fst w_zero_func)) (snd w_zero_func) = Ok kids /\ sym (fst w_zero_func) (decimalize (snd w_zero_func)) = Ok v
+                  /\ time_of v == total kids /\ total kids == 9 /\ to_wf (Node 1 kids) = None)
+  /\ guards_of w_zero_func = [true; true; true; true; true; true; false; false].
+Proof. exact refuted_zero_func. Qed.
+Print Assumptions C04_agree_refuted_zero_length_function_leaf.
+
+(* mappings inside the guard: a parameter mapping that exchanges two names (simultaneous: t_ramp + 2*t_hold = 11, the
+   sequential substitution would give 9), and a table whose LONGEST channel is dropped by a MappingPT inside a
+   repetition while create_program renames the other one: the kept channel is held up to Max(tx, ty) *)
+Theorem C04_example_mappings :
+  guards_of (ex_swap, ex_swap_env) = [true; true; true; true; true; true; true; true]
+  /\ (exists v, sym ex_swap (decimalize ex_swap_env) = Ok v /\ time_of v == 11)
+  /\ guards_of (ex_drop, ex_swap_env) = [true; true; true; true; true; true; true; true]
+  /\ (exists v, sym ex_drop (decimalize ex_swap_env) = Ok v /\ time_of v == 20)
+  /\ create_program real ex_drop ex_swap_env = Ok (Some (Node 1 [Node 4 [Leaf 1 [2%Z] 5]])).
+Proof. exact example_mappings. Qed.
+Print Assumptions C04_example_mappings.
 
 (* the hypotheses are satisfiable by non-trivial inputs: a float parameter (0.1) with 1e6 repetitions; a for-loop with
    negative step whose body (repetition i times, table, atomic arithmetic) depends on the index *)
 Theorem C04_example_guard_satisfiable :
-  guard_C04 ex_tpl ex_env = true /\ guards_of (ex_tpl, ex_env) = [true; true; true; true; true; true]
+  guard_C04 ex_tpl ex_env = true /\ guards_of (ex_tpl, ex_env) = [true; true; true; true; true; true; true; true]
   /\ exists v, sym ex_tpl (decimalize ex_env) = Ok v /\ time_of v == 3000001 # 10.
 Proof. exact example_guard. Qed.
 Print Assumptions C04_example_guard_satisfiable.
 Theorem C04_example_for_loop_negative_step :
-  guard_C04 ex_for ex_for_env = true /\ guards_of (ex_for, ex_for_env) = [true; true; true; true; true; true]
+  guard_C04 ex_for ex_for_env = true /\ guards_of (ex_for, ex_for_env) = [true; true; true; true; true; true; true; true]
   /\ exists v, sym ex_for (decimalize ex_for_env) = Ok v /\ time_of v == 9 # 2.
 Proof. exact example_for_guard. Qed.
 Print Assumptions C04_example_for_loop_negative_step.
